@@ -122,7 +122,7 @@ MCountNotes == \E j \in DOMAIN obj.charts :
                 /\ LET res == CountsOf(obj, j) IN CountNotes(j, res) /\ H([op |-> "countnotes", j |-> j, res |-> res])
 MReadTiming == \E name \in {K_STOPS} :
                 LET p == ParseEvents(TimingText(obj, name)) IN
-                /\ p.ok
+                /\ p.ok /\ ~p.big
                 /\ UNCHANGED svars /\ H([op |-> "readtiming", name |-> name, evs |-> p.evs])
 
 MTimeNotes == \E j \in DOMAIN obj.charts : \E opt \in {"fake", "drop", "keep"} :
